@@ -194,11 +194,18 @@ func genRotAdversarial(out *bufio.Writer, rng *rand.Rand, count int) int {
 		if rng.Intn(3) == 0 {
 			cfg.ReadLimit, cfg.WriteLimit = gmars.Address(limitVal(rng, m)), gmars.Address(limitVal(rng, m))
 		}
+		prelude := rng.Intn(5) == 0 // an earlier battle and a Reset on the same simulator
+		if prelude {
+			m = []uint64{65, 100, 129, 200, 257, 800}[rng.Intn(6)]
+			cfg.CoreSize, cfg.ReadLimit, cfg.WriteLimit = gmars.Address(m), gmars.Address(m), gmars.Address(m)
+		}
 		ln := 1 + rng.Intn(8)
 		if rng.Intn(6) == 0 {
 			ln = int(m) // as long as the core
 		} else if rng.Intn(6) == 0 {
 			ln = int(m) - 1 - rng.Intn(2)
+		} else if !prelude && rng.Intn(8) == 0 {
+			ln = 2*int(m) + rng.Intn(int(m)+2) - 1 // twice the core and more
 		}
 		if ln < 1 {
 			ln = 1
@@ -260,6 +267,14 @@ func genRotAdversarial(out *bufio.Writer, rng *rand.Rand, count int) int {
 			c.add(&w)
 			if second != nil {
 				c.add(second)
+			}
+			if prelude {
+				// the same earlier battle in both variants: a quiet warrior loaded across the end of
+				// the core, a few cycles, Reset — the compared battle then starts from an empty core
+				c.spawn(0, m-1-uint64(n%5))
+				c.runCycle(true)
+				c.runCycle(true)
+				c.reset()
 			}
 			sh := uint64(0)
 			if variant == 1 {
